@@ -8,6 +8,7 @@ import (
 	"sort"
 	"strings"
 	"sync"
+	"sync/atomic"
 
 	"github.com/sourcenetwork/defradb/client"
 	"github.com/sourcenetwork/defradb/internal/db"
@@ -178,13 +179,21 @@ func runC07(args []string) int {
 		docs []qx.Doc
 		n    int
 	}
+	// document sets outermost, so that a budgeted (thorough) run covers every index configuration for a
+	// prefix of the document sets - which starts with the sets of the quick tier
 	jobs := make(chan job, len(configs)*len(sets))
-	for _, c := range configs {
-		for i, s := range sets {
+	for i, s := range sets {
+		for _, c := range configs {
 			jobs <- job{c, s, i}
 		}
 	}
 	close(jobs)
+	totalJobs := len(configs) * len(sets)
+	var doneJobs int64
+	deadline := time.Now().Add(100 * time.Hour)
+	if tier == "thorough" {
+		deadline = time.Now().Add(50 * time.Minute) // internal budget: ends the enumeration with exhaustive=false, never with a verdict
+	}
 	var wg sync.WaitGroup
 	for w := 0; w < runtime.NumCPU(); w++ {
 		wg.Add(1)
@@ -197,6 +206,10 @@ func runC07(args []string) int {
 				}
 			}()
 			for j := range jobs {
+				if time.Now().After(deadline) {
+					continue
+				}
+				atomic.AddInt64(&doneJobs, 1)
 				t := twins[j.cfg.Name]
 				if t == nil {
 					var err error
@@ -234,7 +247,12 @@ func runC07(args []string) int {
 	r.Coverage["histories"] = histories
 	r.Coverage["index_rebuild_comparisons"] = rebuilds
 	r.Coverage["unique_index_writes_judged"] = ue
-	r.Coverage["exhaustive"] = true
+	r.Coverage["twin_jobs_completed"] = doneJobs
+	r.Coverage["twin_jobs_total"] = totalJobs
+	r.Coverage["exhaustive"] = int(doneJobs) == totalJobs
+	if int(doneJobs) != totalJobs {
+		r.Coverage["budget_note"] = fmt.Sprintf("the 50-minute budget of the twin part ended after %d of %d (document set, index configuration) jobs; document sets are taken in order, all index configurations per set; the other parts ran in full", doneJobs, totalJobs)
+	}
 	r.Assumptions = []string{"the plain twin (scan path) is the reference; its own semantics are checked by C08", "index content invariant is differential: entries after the history = entries of the same index rebuilt from the current documents"}
 	return r.Finish()
 }
